@@ -96,6 +96,11 @@ def fixed_cases() -> List[Tuple[str, dict]]:
         out.append((f"restart-{f}", dict(datasets=d1, prog=[["start"], ["upd", 1, 1001], ["tick", 16], ["upd", 2, 1002], ["stop"],
                                                             ["upd", 3, 1001], ["start"], ["upd", 4, 1003], ["tick", 16],
                                                             ["upd", 5, 1001], ["stop"]])))
+        out.append((f"readd-between-recordings-{f}", dict(datasets=d1, prog=[["start"], ["upd", 1, 1001], ["upd", 2, 1002], ["tick", 16],
+                                                                               ["upd", 3, 1003], ["stop"], ["readd"], ["start"],
+                                                                               ["upd", 4, 1001], ["upd", 5, 1004], ["tick", 16],
+                                                                               ["upd", 6, 1002], ["upd", 7, 1003], ["stop"], ["readd"],
+                                                                               ["start"], ["upd", 8, 1001], ["stop"]])))
         out.append((f"restart-after-pause-{f}", dict(datasets=d2, prog=[["start"], ["tick", 10], ["pause"], ["resume"], ["upd", 1, 1001],
                                                                         ["stop"], ["start"], ["tick", 6], ["upd", 2, 1001],
                                                                         ["upd", 3, 1001], ["stop"]])))
@@ -130,6 +135,8 @@ def rand_program(rng: random.Random, maxlen: int = 10) -> List[list]:
         elif r < 0.96:
             prog.append(["stop"] if rec else ["start"])
             rec = not rec
+            if not rec and rng.random() < 0.35:
+                prog.append(["readd"])      # reconfigured between recordings with the same settings
         else:
             prog.append(["start"] if rng.random() < 0.5 else ["stop"])
     prog.append(["stop"])
@@ -171,6 +178,8 @@ def coq_prog_bytes(prog: List[list], sent: dict) -> str:
             out.append("Upd None")
         elif k == "tick":
             out.append(f"Tick {op[1]}")
+        elif k == "readd":
+            continue
         else:
             out.append(dict(start="Start", stop="Stop", pause="Pause", resume="Resume")[k])
     return "[" + "; ".join(out) + "]"
